@@ -445,7 +445,9 @@ class EvHarness:
                 self.end_of_round(it, ctx, uid, "continue")
                 raise PathEnd()
             except _Break:
-                raise Unsupported("break out of the run loop")
+                # the round leaves the loop: what follows the loop runs, then run() returns - judged by the return obligations of run_run
+                self.end_of_round(it, ctx, uid, "break")
+                return None
             self.end_of_round(it, ctx, uid, "fall-through")
             raise PathEnd()
         # inner loops: cut - one arbitrary iteration, or the exit
